@@ -1,6 +1,8 @@
 package kvgraph
 
 import (
+	"sync"
+
 	"github.com/bmeg/grip/gdbi"
 	"github.com/bmeg/grip/kvi"
 	"github.com/bmeg/grip/kvindex"
@@ -12,6 +14,9 @@ type KVGraph struct {
 	kv  kvi.KVInterface
 	idx *kvindex.KVIndex
 	ts  *timestamp.Timestamp
+	// graphLock serialises AddGraph and DeleteGraph: both are sequences of
+	// separate writes (graph key, label-index fields, prefix deletes)
+	graphLock sync.Mutex
 }
 
 // KVInterfaceGDB implements the GDB interface using a genertic key/value storage driver
